@@ -126,7 +126,10 @@ def ess_rule(ctx, clause):
         if g.name == "effective_n_posterior_samples":
             chk.fields["self.log_posterior_weights"] = Fraction(1)
         chk.function(g.node, env)
-        d = chk.deg(kish[0][0], env) if kish else None
+        # the degree of the Kish expression where it stands (the environment after the function mixes every path)
+        d = None
+        if kish:
+            d = chk.node_deg[id(kish[0][0])] if id(kish[0][0]) in chk.node_deg else chk.deg(kish[0][0], env)
         bad = [m for n_, m in reports if "exponential" in m or "applies" in m]
         ctx.ob("R-DEG", clause, g, "the effective sample size does not change when all log-weights are shifted (degree 0, no exp of a shift-dependent value)", d == Fraction(0) and not [m for m in bad if "logsumexp" in m], f"degree {d}; reports {bad[:2]}")
 
